@@ -192,7 +192,7 @@ def _is_fitted(entry, est, data, X, y):
 @st.composite
 def _history_cases(draw, name, tier="quick"):
     entry = R.ENTRIES[name]
-    spec = R.spec_for(name, draw, draw(st.integers(0, 1)))
+    spec = R.spec_for(name, draw, draw(st.integers(0, 11)))
     ops = []
     for _ in range(draw(st.integers(2, 6))):
         k = draw(st.sampled_from(["fit", "bad", "bad", "out"]))
